@@ -290,7 +290,12 @@ def gen_file(rng, legacy):
     for i, (what, s) in enumerate(plan):
         last = i == len(plan) - 1
         if what == "comment":
-            out += rng.choice(WS_LEAD) + rng.choice(COMMENTS) + (b"" if last and rng.random() < 0.5 else eol(rng, crlf))
+            com = rng.choice(COMMENTS)
+            if rng.random() < 0.06:
+                # a comment longer than the reader's buffer whose tail reads like a setting (seeded/C19e2)
+                com = rng.choice([b"# ", b"; "]) + rng.choice([b"x", b"long prose "]) * rng.choice([4090, 4200, 900]) \
+                    + rng.choice([b" port = 9999", b" loglevel = always", b"pidfile=/c", b""])
+            out += rng.choice(WS_LEAD) + com + (b"" if last and rng.random() < 0.5 else eol(rng, crlf))
         elif what == "unknown":
             tok = rng.choice([b"1", b"maybe", b"x y", b"", b"'", b"12x"])
             it = file_item(rng, rng.choice(UNKNOWN_KEYS), tok, crlf, last)
@@ -450,6 +455,12 @@ def gen_quirks():
         fixed_case("quirk", [b"-c", c], b"logfile = 'a' pidfile = 'b' proxy='c'", note="several assignments on one line after quoted values"),
         fixed_case("quirk", [b"-c", c], b"logfile = \"a\\qb\\\\n\\\"\nport=1", note="unknown escape kept; \\\" ends the string"),
         fixed_case("quirk", [b"-c", c], b"loglevel = info;debug\n", note="; in a raw log level is a comment"),
+        # lines longer than the reader's 4096-byte buffer (a comment must be skipped to ITS end of line; seeded/C19e2)
+        fixed_case("quirk", [b"-c", c], b"# " + b"x" * 4090 + b" use: port = 9999\nloglevel = debug\n", note="comment line of about 4110 bytes"),
+        fixed_case("quirk", [b"-c", c], b"; " + b"long prose " * 800 + b"\r\nport = 7\r\n", note="8800-byte comment, CRLF"),
+        fixed_case("quirk", [b"-c", c], b"port = 5\n#" + b"y" * 4095 + b"\n#" + b"z" * 4096 + b"k = v\nlogfile = /l\n", note="comments of exactly 4096 / 4097+ bytes"),
+        fixed_case("quirk", [b"-c", c], b"logfile = /" + b"d" * 5000 + b" # c\npidfile = '" + b"q" * 4500 + b"'\n", note="values longer than the buffer"),
+        fixed_case("quirk", [b"--define", b"# " + b"w" * 4200 + b" port = 1"], note="long comment in a --define"),
         fixed_case("quirk", [b"--loglevel", b"info;debug"]),
         fixed_case("quirk", [b"--loglevel", b"error,daemon=warning,x=always"]),
         fixed_case("quirk", [b"--loglevel", b"=debug"]),
